@@ -13,8 +13,9 @@ for d in sorted([d for d in glob.glob(os.path.join(HERE, "seeded", "C*")) if os.
     m = json.load(open(mp))
     summ = m.get("summary") or ""
     summ = (summ if isinstance(summ, str) else json.dumps(summ)).replace("\n", " ").replace("|", "/")
-    caught = sorted({k.split(":")[0] for k, v in m.get("checks", {}).items() if v["exit"] == 1})
-    quiet = sorted({k.split(":")[0] for k, v in m.get("checks", {}).items() if v["exit"] == 0})
+    lab = lambda k: k.split(":")[0] + ("(thorough tier)" if ":thorough:" in k else "")
+    caught = sorted({lab(k) for k, v in m.get("checks", {}).items() if v["exit"] == 1})
+    quiet = sorted({lab(k) for k, v in m.get("checks", {}).items() if v["exit"] == 0})
     rows.append(f"| {os.path.basename(d)} | {summ[:150]}{'…' if len(summ) > 150 else ''} | {', '.join(caught) or '-'} | {', '.join(quiet) or '-'} |")
 p = os.path.join(HERE, "DESIGN.md")
 lines = open(p).read().split("\n")
